@@ -252,17 +252,11 @@ def finish(mod, tier, seed, total, wall, njobs):
     )
     os.makedirs(os.path.join(VERIF, "evidence"), exist_ok=True)
     evpath = os.path.join(VERIF, "evidence", f"{pid}.json")
-    try:
-        import jsonschema
+    from vlib import schema
 
-        with open("/root/.vp/EVIDENCE.schema.json") as f:
-            jsonschema.validate(ev, json.load(f))
-    except ImportError:
-        pass
-    except FileNotFoundError:
-        pass
-    except Exception as e:
-        total.harness_errors.append(f"evidence does not validate: {e}"[:500])
+    err = schema.validate(ev, "/root/.vp/EVIDENCE.schema.json")
+    if err:
+        total.harness_errors.append(f"evidence does not validate: {err}"[:500])
     with open(evpath, "w") as f:
         json.dump(ev, f, indent=1)
     print(
